@@ -3,10 +3,15 @@
 package routing
 
 import (
+	"errors"
 	"strconv"
+	"strings"
 
+	"github.com/daeuniverse/dae/common/assets"
 	"github.com/daeuniverse/dae/pkg/config_parser"
+	"github.com/daeuniverse/dae/pkg/geodata"
 	vs "github.com/daeuniverse/dae/zz_vs"
+	"github.com/sirupsen/logrus"
 )
 
 // ---- meaning of a rule list, evaluated on the AST under one valuation of the atoms ----
@@ -195,3 +200,52 @@ func Verif_C04_dns() {
 	vs.Assert("normalised rules decide as written", c04Decide(out, ids, false) == c04Decide(rules, ids, false))
 }
 
+
+// Verif_C04_geosite_expand: the real geosite expansion of the DatReaderOptimizer (attribute filter
+// and the expansion cache), with the file layer replaced: the "file" holds one code with four
+// entries, two of them tagged. Three look-ups in arbitrary order among shop, shop@ads, shop@cn,
+// SHOP@ADS on one optimizer: every look-up yields exactly the entries of the code that carry the
+// attribute asked for (all of them when none is asked for) - whatever was looked up before.
+func Verif_C04_geosite_expand() {
+	site := &geodata.GeoSite{CountryCode: "SHOP", Domain: []*geodata.Domain{
+		{Type: geodata.Domain_RootDomain, Value: "shop.example"},
+		{Type: geodata.Domain_Full, Value: "ads.shop.example", Attribute: []*geodata.Domain_Attribute{{Key: "ads"}}},
+		{Type: geodata.Domain_Plain, Value: "shopcn", Attribute: []*geodata.Domain_Attribute{{Key: "cn"}, {Key: "ADS"}}},
+		{Type: geodata.Domain_RootDomain, Value: "shop.cn", Attribute: []*geodata.Domain_Attribute{{Key: "cn"}}},
+	}}
+	loads := 0
+	vs.Replace("(*github.com/daeuniverse/dae/common/assets.LocationFinder).GetLocationAsset",
+		func(c *assets.LocationFinder, log *logrus.Logger, filename string) (string, error) { return "/usr/share/dae/" + filename, nil })
+	vs.Replace("github.com/daeuniverse/dae/pkg/geodata.UnmarshalGeoSite",
+		func(log *logrus.Logger, filepath, code string) (*geodata.GeoSite, error) {
+			loads++
+			if !strings.EqualFold(code, "shop") {
+				return nil, errors.New("code not found")
+			}
+			return site, nil
+		})
+	o := &DatReaderOptimizer{}
+	codes := []string{"shop", "shop@ads", "shop@cn", "SHOP@ADS"}
+	want := map[string][]string{
+		"shop":     {"suffix:shop.example", "full:ads.shop.example", "keyword:shopcn", "suffix:shop.cn"},
+		"shop@ads": {"full:ads.shop.example", "keyword:shopcn"},
+		"shop@cn":  {"keyword:shopcn", "suffix:shop.cn"},
+		"SHOP@ADS": {"full:ads.shop.example", "keyword:shopcn"},
+	}
+	for i := 0; i < 3; i++ {
+		code := codes[vs.Choice("lookup"+strconv.Itoa(i), len(codes))]
+		params, err := o.loadGeoSite("geosite", code)
+		vs.Assert("the look-up succeeds", err == nil)
+		var got []string
+		for _, p := range params {
+			got = append(got, p.Key+":"+p.Val)
+		}
+		w := want[code]
+		same := len(got) == len(w)
+		for j := 0; j < len(w) && j < len(got); j++ {
+			same = same && got[j] == w[j]
+		}
+		vs.Assert("a geosite reference expands to the entries carrying its attribute, whatever was expanded before", same)
+	}
+	vs.Assert("the file is read at most once per look-up", loads <= 3)
+}
